@@ -1,5 +1,36 @@
-// unit `solver_new_data` : companions of unit `solver_new` -- the all-in-one data update (item 4), the presolve reduction of A and b
-// (item 5, C09) and the presolve / copy logic of DefaultProblemData::new (item 6).  float model: F-opaque.
+// unit `solver_new_data` : companions of unit `solver_new` -- the all-in-one data update (C08), the presolve reduction of A and b (C09)
+// and the presolve / copy logic of DefaultProblemData::new (C04, C09).  float model: F-opaque.
+//
+// PROVED from the real text (extracted, never retyped):
+//   data_updating.rs:  update_data -- the parts are applied in the order P, q, A, b and the first rejected part stops the update: a part is
+//     written iff it and every part before it is accepted; Ok iff all four are; presolver active => Err and NOTHING changes; shapes, scalings,
+//     variables, settings, presolver never change; norm caches / KKT copies follow exactly the parts processed.
+//     update_P / update_q / update_A / update_b, check_data_update_allowed, is_data_update_allowed, is_presolved, clear_normq / clear_normb:
+//     SECOND extraction with the contracts of unit data_update PLUS a full frame (frame_P / frame_q / frame_A / frame_b: every other field of
+//     the solver is unchanged) -- the contracts there are silent about `presolver`, without which the four calls do not compose.
+//   presolver.rs:  reduce_A_b (A_new = select_rows(A, keep), b_new = select(b, keep), BOTH under the presolver's mask; rows of A_new =
+//     entries of b_new = number of kept rows), presolve (+ the reduced cones claim exactly those rows, given the ASSUMED reduce_cones).
+//   problemdata.rs:  try_presolver (Some <=> presolve_enable and some row is reducible; then it is what Presolver::new builds),
+//     is_chordal_decomposed (false in the default build), unwrap_and_slice_or_else (feature sdp; rule tparam:T>Fl because the source
+//     calls its closure type `F`), CscMatrix::size, and DefaultProblemData::new as TWO statement slices:
+//       new_presolve_phase  `let mut P_new ..` through the presolve `if let`   (rules R1, R12, tupassign [new, additive: destructuring
+//                           assignment of a tuple literal to plain names -> one assignment per component])  ==> presolve_phase_post
+//       new_copy_phase      `let P_new = P_new.unwrap_or_else(..)` through the struct literal (new directive //@closure0 k for `|| ..`)
+//                           ==> copy_phase_post: presolved / triangularised data where produced, copies of the user's otherwise; b capped
+//                           at the bound in force; (m, n) = the sizes of the A that is STORED; identity scalings of those sizes; the
+//                           presolver and the norms of the stored vectors
+//     lemma_new_dimensions: both posts + consistent user dimensions ==> the dimension clauses that unit solver_new assumes of
+//     DefaultProblemData::new (n = A.n, m <= A.m, m = rows claimed by the internal cones, P n x n, A m x n, q: n, b: m, the presolver
+//     mask has the user's m entries with m_internal true, b is the capped selection).
+// ASSUMED:  proved elsewhere, contract text copied: select_rows, is_triu, to_triu (csc_core; to_triu's postcondition by NAME triu_of),
+//   select (vecmath_more), Presolver::new / is_reduced (postprocess), DefaultEquilibrationData::new (variables), scalarop / norm_inf
+//   (prelude/vecmath_assumed.rs, unit vecmath), the two update traits' method contracts (every impl checked in data_update),
+//   DefaultKKTSystem::update_P / update_A (ghost copies; kkt_solve).
+//   NOT PROVED ANYWHERE: reduce_cones (stateful iterator adaptors; bounded Kani harness only): the reduced cones claim exactly the kept
+//   rows; new_collapsed keeps the row total (premise of lemma_new_dimensions); get_infinity (module-level atomic); <[T]>::to_vec;
+//   derive(Clone) on CscMatrix written out (body verified); thiserror's From<SparseFormatError>.
+// DROPPED: first statement of DefaultProblemData::new (new_collapsed), the chordal block (feature sdp), reduce_cones' body,
+//   try_chordal_info (feature sdp).   OBSERVATION O2: update_data can fail half-way and leave P (and q, A) already updated.
 use vstd::prelude::*;
 verus! {
 //@include prelude/float_opaque.rs
@@ -480,7 +511,7 @@ pub open spec fn presolve_phase_post(P: CscMatrix<F>, A: CscMatrix<F>, b: Seq<F>
             && A_new->Some_0.m == b_new->Some_0@.len() && b_new->Some_0@.len() == total_nvars(cones_new->Some_0@)
             && A_new->Some_0.m == p.mreduced)
 }
-//@fn file=src/solver/implementations/default/problemdata.rs in="impl<T> DefaultProblemData<T>" name=new as=new_presolve_phase rules=R1,R12 from="let mut P_new: Option<CscMatrix<T>> = None;" to="if let Some(ref presolver) = presolver" header="fn new_presolve_phase<T: FloatT>(P: &CscMatrix<T>, A: &CscMatrix<T>, b: &[T], cones: Vec<SupportedConeT<T>>, settings: &DefaultSettings<T>)"
+//@fn file=src/solver/implementations/default/problemdata.rs in="impl<T> DefaultProblemData<T>" name=new as=new_presolve_phase rules=R1,R12,tupassign from="let mut P_new: Option<CscMatrix<T>> = None;" to="if let Some(ref presolver) = presolver" header="fn new_presolve_phase<T: FloatT>(P: &CscMatrix<T>, A: &CscMatrix<T>, b: &[T], cones: Vec<SupportedConeT<T>>, settings: &DefaultSettings<T>)"
 //@contract
     requires
         // consistent dimensions (established by _check_dimensions; new_collapsed keeps the row total) and well-formed matrices
@@ -491,6 +522,132 @@ pub open spec fn presolve_phase_post(P: CscMatrix<F>, A: CscMatrix<F>, b: Seq<F>
             assert(presolve_phase_post(*P, *A, b@, cones@, settings.presolve_enable, P_new, q_new, A_new, b_new, cones_new, presolver));
         }
 //@end
+
+
+// `#[derive(Clone)]` on CscMatrix, written out (macro expansion, ASSUMED to be this: field-wise clone); body verified
+impl Clone for CscMatrix<F> {
+    fn clone(&self) -> (r: Self)
+        ensures r.m == self.m, r.n == self.n, r.colptr@ == self.colptr@, r.rowval@ == self.rowval@, r.nzval@ == self.nzval@,
+    {
+        let r = CscMatrix { m: self.m, n: self.n, colptr: self.colptr.clone(), rowval: self.rowval.clone(), nzval: self.nzval.clone() };
+        assert(r.colptr@ =~= self.colptr@ && r.rowval@ =~= self.rowval@ && r.nzval@ =~= self.nzval@);
+        r
+    }
+}
+pub open spec fn copy_of(a: Seq<F>, b: Seq<F>) -> bool { a.len() == b.len() && forall|i: int| 0 <= i < b.len() ==> #[trigger] a[i] == b[i] }
+pub open spec fn same_matrix(a: CscMatrix<F>, b: CscMatrix<F>) -> bool {
+    a.m == b.m && a.n == b.n && a.colptr@ == b.colptr@ && a.rowval@ == b.rowval@ && a.nzval@ == b.nzval@
+}
+// <[T]>::to_vec clones element by element (std); F is Copy with `clone(x) == x`
+pub assume_specification<T: Clone> [<[T]>::to_vec] (s: &[T]) -> (r: Vec<T>)
+    ensures r@.len() == s@.len(), forall|i: int| 0 <= i < s@.len() ==> cloned(#[trigger] s@[i], r@[i]);
+impl CscMatrix<F> {
+//@fn file=src/algebra/csc/core.rs in="ShapedMatrix for CscMatrix<T>" name=size rules=R1 ret=r
+//@contract
+    ensures r == (self.m, self.n)
+//@end
+}
+impl DefaultEquilibrationData<F> {
+    // PROVED in unit variables (contract text copied)
+    #[verifier::external_body]
+    pub fn new(n: usize, m: usize) -> (r: Self)
+        ensures
+            r.d@.len() == n, r.dinv@.len() == n, r.e@.len() == m, r.einv@.len() == m,
+            all_eq(r.d@, f_one()), all_eq(r.dinv@, f_one()), all_eq(r.e@, f_one()), all_eq(r.einv@, f_one()),
+            r.c == f_one(),
+    { unimplemented!() }
+}
+pub open spec fn all_eq(v: Seq<F>, c: F) -> bool { forall|i: int| 0 <= i < v.len() ==> #[trigger] v[i] == c }
+// b capped at the bound in force, entry for entry (C09: "capped, never dropped"; PROVED for this statement pair in unit problemdata_new too)
+pub open spec fn capped(b1: Seq<F>, b0: Seq<F>) -> bool {
+    b1.len() == b0.len() && forall|i: int| 0 <= i < b0.len() ==> #[trigger] b1[i] == f_min(b0[i], f_lit(infinity_in_force()))
+}
+// what the copy phase (everything after the chordal block) builds
+pub open spec fn copy_phase_post(P: CscMatrix<F>, q: Seq<F>, A: CscMatrix<F>, b: Seq<F>, cones: Vec<SupportedConeT<F>>,
+    P_new: Option<CscMatrix<F>>, q_new: Option<Vec<F>>, A_new: Option<CscMatrix<F>>, b_new: Option<Vec<F>>, cones_new: Option<Vec<SupportedConeT<F>>>,
+    presolver: Option<Presolver<F>>, r: DefaultProblemData<F>) -> bool
+{
+    // the internal data are the presolved / triangularised data where a phase produced them, copies of the user's otherwise;
+    // b is capped at the bound in force in either case
+    &&& (P_new matches Some(x) ==> r.P == x) && (P_new is None ==> same_matrix(r.P, P))
+    &&& (q_new matches Some(x) ==> r.q == x) && (q_new is None ==> r.q@ == q)
+    &&& (A_new matches Some(x) ==> r.A == x) && (A_new is None ==> same_matrix(r.A, A))
+    &&& (b_new matches Some(x) ==> capped(r.b@, x@)) && (b_new is None ==> capped(r.b@, b))
+    &&& (cones_new matches Some(x) ==> r.cones == x) && (cones_new is None ==> r.cones == cones)
+    // "this ensures m is the *reduced* size m": (m, n) are the sizes of the A that is stored
+    &&& r.m == r.A.m && r.n == r.A.n
+    // the scalings start as the identity of those sizes; the presolver is stored as it came; the norms are those of the stored vectors
+    &&& r.equilibration.d@.len() == r.n && r.equilibration.dinv@.len() == r.n && r.equilibration.e@.len() == r.m && r.equilibration.einv@.len() == r.m
+    &&& all_eq(r.equilibration.d@, f_one()) && all_eq(r.equilibration.e@, f_one()) && r.equilibration.c == f_one()
+    &&& r.presolver == presolver
+    &&& r.normq == Some(vm_norm_inf(r.q@)) && r.normb == Some(vm_norm_inf(r.b@))
+}
+impl DefaultProblemData<F> {
+//@fn file=src/solver/implementations/default/problemdata.rs in="impl<T> DefaultProblemData<T>" name=new as=new_copy_phase rules=R1,R12 from="let P_new = P_new.unwrap_or_else(" to="Self {" header="fn new_copy_phase<T: FloatT>(P: &CscMatrix<T>, q: &[T], A: &CscMatrix<T>, b: &[T], cones: Vec<SupportedConeT<T>>, P_new: Option<CscMatrix<T>>, q_new: Option<Vec<T>>, A_new: Option<CscMatrix<T>>, b_new: Option<Vec<T>>, cones_new: Option<Vec<SupportedConeT<T>>>, presolver: Option<Presolver<T>>) -> Self" ret=r
+//@contract
+    ensures copy_phase_post(*P, q@, *A, b@, cones, P_new, q_new, A_new, b_new, cones_new, presolver, r),
+//@pre
+        let ghost q_in = q_new;
+        let ghost b_in = b_new;
+//@after "let mut b_new ="
+        proof {
+            if q_in is None { assert(q_new@ =~= q@); }
+            if b_in is None { assert(b_new@ =~= b@); }
+        }
+//@closure0 1
+(c1: CscMatrix<F>) ensures same_matrix(c1, *P)
+//@closure0 2
+(c2: Vec<F>) ensures copy_of(c2@, q@)
+//@closure0 3
+(c3: CscMatrix<F>) ensures same_matrix(c3, *A)
+//@closure0 4
+(c4: Vec<F>) ensures copy_of(c4@, b@)
+//@closure 1
+F
+(c5: F) ensures c5 == f_min(x, infbound)
+//@end
+}
+
+
+// ---- COMPOSITION: the two slices give the dimension clauses of the contract that unit solver_new ASSUMES of DefaultProblemData::new.
+// Still assumed there and not derived here: new_collapsed keeps the row total (first premise below) and produces constructible cones;
+// reduce_cones (inside presolve); well-formedness of the stored matrices (colptr_ok / row indices in range: follows from
+// select_rows / clone for A; for a triangularised P it needs the definition behind `triu_of`).
+pub proof fn lemma_new_dimensions(P: CscMatrix<F>, q: Seq<F>, A: CscMatrix<F>, b: Seq<F>, user_cones: Seq<SupportedConeT<F>>, cones: Vec<SupportedConeT<F>>, enabled: bool,
+    P_new: Option<CscMatrix<F>>, q_new: Option<Vec<F>>, A_new: Option<CscMatrix<F>>, b_new: Option<Vec<F>>, cones_new: Option<Vec<SupportedConeT<F>>>,
+    presolver: Option<Presolver<F>>, r: DefaultProblemData<F>)
+    requires
+        // consistent dimensions of the user's data (unit postprocess: _check_dimensions returns only then)
+        b.len() == A.m, total_nvars(user_cones) == b.len(), q.len() == A.n, q.len() == P.n, P.m == P.n,
+        // ASSUMED of new_collapsed (not under contract): the collapsed cones claim the same number of rows
+        total_nvars(cones@) == total_nvars(user_cones),
+        presolve_phase_post(P, A, b, cones@, enabled, P_new, q_new, A_new, b_new, cones_new, presolver),
+        copy_phase_post(P, q, A, b, cones, P_new, q_new, A_new, b_new, cones_new, presolver, r),
+    ensures
+        // n is the user's, m the number of rows kept; the internal cones claim exactly m rows; P is n x n, A is m x n, q: n, b: m
+        r.n == A.n, r.m <= A.m, r.m == total_nvars(r.cones@),
+        r.P.m == r.n && r.P.n == r.n, r.A.m == r.m && r.A.n == r.n, r.q@.len() == r.n, r.b@.len() == r.m,
+        r.equilibration.d@.len() == r.n, r.equilibration.e@.len() == r.m,
+        // a presolver is stored iff rows were dropped; its mask has the user's m entries, m_internal of them true
+        match r.presolver {
+            Some(p) => p.reduce_map is Some && p.reduce_map->Some_0.keep_logical@.len() == A.m
+                && count_true(p.reduce_map->Some_0.keep_logical@, A.m as int) == r.m,
+            None => r.m == A.m,
+        },
+        // C09: without a presolver every row is kept with its (capped) right-hand side; with one, exactly the rows that are not dropped
+        r.presolver is None ==> capped(r.b@, b),
+        r.presolver matches Some(p) ==> capped(r.b@, sel(b, p.reduce_map->Some_0.keep_logical@, b.len() as int)),
+{
+    match presolver {
+        Some(p) => {
+            let keep = p.reduce_map->Some_0.keep_logical@;
+            lemma_rank_is_count(keep, A.m as int);
+            lemma_count_le(keep, A.m as int);
+        }
+        None => { }
+    }
+}
+pub proof fn lemma_count_le(s: Seq<bool>, n: int) requires 0 <= n ensures 0 <= count_true(s, n) <= n decreases n { if n > 0 { lemma_count_le(s, n - 1); } }
 
 } // verus!
 fn main() {}
